@@ -33,7 +33,18 @@ def features(case, run, val):
     f = ['groups' if any(case['grp']) else 'flat'] + sorted({'edge:' + e['kind'] for e in case['edges']})
     f.append('outcome:' + val.impl_kind)
     if getattr(val, 'pull', False): f.append('premise pull_strict of C03_pulled_inputs_come_from_the_final_cache certified')
+    if getattr(val, 'push', False): f.append('premise push_strict of C03_no_event_is_overdue certified')
     return f
+
+
+def case_gen(rng, k):
+    case = gen.gen_parallel_case(rng) if k % 5 == 4 else gen.gen_case(rng, groups=True, clean=0.75)
+    if k % 3 == 1:
+        # persistent outputs that are sometimes None ("no reading"): None is a value like any other
+        for i, b in enumerate(case['beh']):
+            if case['types'][i] != 'event-based' and rng.random() < 0.7:
+                b['none_outputs'] = [f'{tt},0' for tt in range(case['until'] + 1) if rng.random() < 0.4]
+    return case
 
 
 def run(out, info, tier, seed):
@@ -43,11 +54,12 @@ def run(out, info, tier, seed):
     out.assumptions = ['slot semantics: one value per (destination attribute, source entity); a value overwritten in its slot before the consumer steps is superseded, not lost',
                        'outside the quantifier: several connections into one slot (unique_slots), persistent attributes not produced at every step (persistent_complete)']
     sched_check.sched_property(out, info, tier, seed, 'C03', KINDS, monitor, gen_opts=dict(groups=True, clean=0.75),
-                               case_gen=lambda rng, k: gen.gen_parallel_case(rng) if k % 5 == 4 else gen.gen_case(rng, groups=True, clean=0.75),
+                               case_gen=case_gen,
                                ncases=(130, 2000), variants=[(True, True), (False, True), (True, False), (False, False)],
                                nontrivial=nontrivial, features=features, hyp=hyp, known_match=known_match,
                                extra_obligations=[('Sched.DataP (buffer, cache, pruning lemmas)', 'Sched/DataP'),
-                                                  ('Sched.PullRun (whole-run characterisation of pulled inputs)', 'Sched/PullRun')])
+                                                  ('Sched.PullRun (whole-run characterisation of pulled inputs)', 'Sched/PullRun'),
+                                                  ('Sched.EventRun (events over whole runs: kept, delivered once, by the first step at or after the due time)', 'Sched/EventRun')])
     out.coverage['nontrivial_rule'] = 'some step received a value produced by another simulator'
 
 
